@@ -166,6 +166,8 @@ const struct pw_format *pw_check(HIO_HANDLE *f, struct xmp_test_info *info)
 
 	for (i = 0; pw_formats[i] != NULL; i++) {
 		D_("checking format [%d]: %s", s, pw_formats[i]->name);
+		/* Not every format test writes a title. */
+		memset(title, 0, sizeof(title));
 		res = pw_formats[i]->test(src, title, s);
 		if (res > 0 && !internal) {
 			/* Extra data was requested. */
